@@ -187,6 +187,8 @@ fn search_parallel(args: &HiArgs, mode: SearchMode) -> anyhow::Result<bool> {
             };
             searched.store(true, Ordering::SeqCst);
             searcher.printer().get_mut().clear();
+            #[cfg(ripgrep_verif)]
+            ignore::verif::event(ignore::verif::Site::User, 1);
             let search_result = match searcher.search(&haystack) {
                 Ok(search_result) => search_result,
                 Err(err) => {
@@ -201,6 +203,8 @@ fn search_parallel(args: &HiArgs, mode: SearchMode) -> anyhow::Result<bool> {
                 let mut stats = locked_stats.lock().unwrap();
                 *stats += search_result.stats().unwrap();
             }
+            #[cfg(ripgrep_verif)]
+            ignore::verif::event(ignore::verif::Site::User, 2);
             if let Err(err) = bufwtr.print(searcher.printer().get_mut()) {
                 // A broken pipe means graceful termination.
                 if err.kind() == std::io::ErrorKind::BrokenPipe {
@@ -306,6 +310,8 @@ fn files_parallel(args: &HiArgs) -> anyhow::Result<bool> {
             if args.quit_after_match() {
                 WalkState::Quit
             } else {
+                #[cfg(ripgrep_verif)]
+                ignore::verif::event(ignore::verif::Site::User, 3);
                 match tx.send(haystack) {
                     Ok(_) => WalkState::Continue,
                     Err(_) => WalkState::Quit,
